@@ -21,6 +21,7 @@ def run(ctx):
     from ..shape import Shapes
     sh4(ctx, Shapes(ctx.model), only_keys=("_cmp_val", "_val", "hash"))
     immut.im13(ctx)     # nobody writes into the cache of a URL it did not create (shared, memoised objects)
+    immut.im16(ctx)     # the comparison keys are cached under their own names (no other property's value can be read through them)
     ctx.extra["exhaustive"] = True
 
 
